@@ -54,7 +54,8 @@ GOut(c, e)    == [cond |-> c, kind |-> "out", to |-> NoTarget, out |-> e]
 
 (* ------------------------------------------------------------ environments *)
 Bound(env, x)  == \E i \in 1..Len(env) : env[i].v = x
-Lookup(env, x) == env[CHOOSE i \in 1..Len(env) : env[i].v = x].val
+(* the LAST binding of a name wins: a pattern variable shadows a machine argument of the same name *)
+Lookup(env, x) == env[CHOOSE i \in 1..Len(env) : env[i].v = x /\ \A j \in (i + 1)..Len(env) : env[j].v # x].val
 B(x, val) == <<[v |-> x, val |-> val]>>
 
 (* ------------------------------------------------------------- expressions *)
@@ -106,7 +107,10 @@ ArmMatches(arm, cfg) ==
   /\ \A i \in 1..Len(arm.pats) : PMatches(arm.pats[i], cfg.pay[i])
 RECURSIVE BindFrom(_, _, _)
 BindFrom(pats, pay, i) == IF i > Len(pats) THEN <<>> ELSE PBinds(pats[i], pay[i]) \o BindFrom(pats, pay, i + 1)
-ArmEnv(arm, cfg) == BindFrom(arm.pats, cfg.pay, 1)
+(* the scope of an arm: the machine's arguments (carried unchanged in cfg.inp), then the arm's OWN pattern bindings. *)
+(* Nothing an arm that was tried before has bound (or shadowed) is visible: every arm starts from the same scope.   *)
+ArmEnv(arm, cfg) == cfg.inp \o BindFrom(arm.pats, cfg.pay, 1)
+WithInp(c, inp) == [state |-> c.state, pay |-> c.pay, inp |-> inp]
 
 (* ----------------------------------------------------------------- stepping *)
 EvalTarget(tg, env) ==
@@ -137,7 +141,7 @@ Effect(m, cfg, c) ==
   THEN LET r == Eval(out, env) IN
        IF r.ok THEN [kind |-> "out", cand |-> c, cfg |-> cfg, v |-> r.v] ELSE [kind |-> "err", cand |-> c, cfg |-> cfg, v |-> NV(0)]
   ELSE LET r == EvalTarget(to, env) IN
-       IF r.ok THEN [kind |-> "trans", cand |-> c, cfg |-> r.cfg, v |-> NV(0)] ELSE [kind |-> "err", cand |-> c, cfg |-> cfg, v |-> NV(0)]
+       IF r.ok THEN [kind |-> "trans", cand |-> c, cfg |-> WithInp(r.cfg, cfg.inp), v |-> NV(0)] ELSE [kind |-> "err", cand |-> c, cfg |-> cfg, v |-> NV(0)]
 
 (* Step, declaratively: the first candidate (source order) that fires; none -> the machine halts *)
 Step(m, cfg) ==
@@ -162,7 +166,8 @@ StepK(m, cfg) == ScanArms(m, cfg, 1)
 (* the start configuration: the start target evaluated with the arguments bound to the input names *)
 RECURSIVE InputEnv(_, _, _)
 InputEnv(m, args, i) == IF i > Len(m.inputs) THEN <<>> ELSE B(m.inputs[i], args[i]) \o InputEnv(m, args, i + 1)
-StartCfg(m, args) == EvalTarget(m.start, InputEnv(m, args, 1))
+StartCfg(m, args) == LET ie == InputEnv(m, args, 1)
+                         r == EvalTarget(m.start, ie) IN [ok |-> r.ok, cfg |-> WithInp(r.cfg, ie)]
 
 (* Run: at most maxSteps iterations; every iteration (also the one that produces the output) counts. *)
 (* res: "out" value v | "halt" (no transition applies) | "limit" | "err" (arithmetic has no result)    *)
